@@ -129,7 +129,6 @@ func c14Scenarios(tier string) []*Scenario {
 			})
 			cl := rt.GoNamed("closer", func() {
 				closeErrs[0] = r.Close()
-				x.Vals["closed-at"] = true
 			})
 			p1.Join()
 			p2.Join()
